@@ -82,6 +82,7 @@ std::string plan_to_json(const Plan &p, bool pretty) {
 		if (!o.pfault.empty()) { s += ",\"pfault\":["; for (size_t k = 0; k < o.pfault.size(); ++k) { snprintf(buf, sizeof buf, "%s%d", k ? "," : "", o.pfault[k]); s += buf; } s += "]"; }
 		if (o.env >= 0) jint(s, "env", o.env, first);
 		if (o.heap) jint(s, "heap", o.heap, first);
+		if (o.preempt) { jnum(s, "pre", o.preempt, first); if (o.preempt_at) jnum(s, "prey", o.preempt_at, first); }
 		if (o.expect_null) s += ",\"null\":true";
 		s += "}";
 	}
@@ -123,6 +124,7 @@ bool plan_from_json(const rt::JVal &j, Plan &p, std::string &err) {
 		if (auto f = e.get("pfault")) for (auto &x : f->a) o.pfault.push_back((int)x.i);
 		o.env = e.num("env", -1); o.heap = (int)e.num("heap");
 		if (auto n = e.get("null")) o.expect_null = n->t == rt::JVal::BOOL && n->b;
+		o.preempt = (uint32_t)e.num("pre"); o.preempt_at = (uint32_t)e.num("prey");
 		p.ops.push_back(o);
 	}
 	if (auto s = j.get("sched")) for (auto &e : s->a) if (e.a.size() == 2) p.sched.push_back(rt::Switch{(uint64_t)e.a[0].i, (int)e.a[1].i});
